@@ -127,7 +127,22 @@ func child(a []string) int {
 		_ = os.WriteFile(progFile, []byte(strconv.Itoa(i)), 0o644)
 		c := &core.Ctx{Prop: p.ID(), Tier: tier, Seed: seed, Idx: i, R: core.NewRand(core.SubSeed(seed, p.ID(), i)), Res: res}
 		res.Evaluations++
+		var watchdog *time.Timer
+		if ct, ok := p.(interface {
+			CaseTimeout(tier string) time.Duration
+		}); ok {
+			// a case that is silent for this long hangs: dump the goroutines and leave; the parent re-runs the
+			// case alone under the same limit before it counts (exit code 97 = "timed out")
+			watchdog = time.AfterFunc(ct.CaseTimeout(tier), func() {
+				buf := make([]byte, 1<<20)
+				os.Stderr.Write(buf[:runtime.Stack(buf, true)])
+				os.Exit(97)
+			})
+		}
 		runCase(p, c)
+		if watchdog != nil {
+			watchdog.Stop()
+		}
 		// the check has failed already: a few witnesses are enough, the rest of the chunk is not run
 		unknown := 0
 		for _, v := range res.Violations {
@@ -265,6 +280,9 @@ func runChild(bin string, p core.Prop, tier string, seed int64, ch chunk, work s
 			err = <-done
 		}
 	}
+	if ee, ok := err.(*exec.ExitError); ok && ee.ExitCode() == 97 {
+		out.timedOut = true // the child's own per-case watchdog
+	}
 	if b, e := os.ReadFile(progFile); e == nil {
 		out.at, _ = strconv.Atoi(strings.TrimSpace(string(b)))
 	}
@@ -369,6 +387,7 @@ func parent(id, tier string) int {
 	merged := core.NewResult()
 	var mu sync.Mutex
 	children := 0
+	confirmedHangs := 0
 	queue := make(chan chunk, len(chunks)+1024)
 	var pending sync.WaitGroup
 	for _, c := range chunks {
@@ -382,6 +401,18 @@ func parent(id, tier string) int {
 		go func() {
 			defer wg.Done()
 			for ch := range queue {
+				mu.Lock()
+				skip := confirmedHangs >= 2
+				if skip {
+					merged.Events["chunks-not-run-after-two-confirmed-hangs"]++
+				}
+				mu.Unlock()
+				if skip {
+					// two cases were confirmed (each re-run alone) not to terminate: the verdict is a violation
+					// already, and every further hang would cost two watchdog periods
+					pending.Done()
+					continue
+				}
 				out := runChild(bin, p, tier, seed, ch, work, timeout, extraEnv)
 				mu.Lock()
 				children++
@@ -423,6 +454,7 @@ func parent(id, tier string) int {
 				switch {
 				case out.timedOut:
 					if h, ok := p.(interface{ HangIsViolation() bool }); ok && h.HangIsViolation() {
+						confirmedHangs++
 						merged.Violations = append(merged.Violations, core.Violation{Property: id, Tier: tier, Seed: seed, Case: suspect,
 							What: "call did not terminate within the watchdog limit (re-run alone)", Detail: map[string]any{"log": tail(out.log, 6000)}})
 					} else {
